@@ -300,10 +300,12 @@ var pow2 = func() [130]*big.Int {
 func Pow2(k int) Term { return Term{pow2[k].String(), SInt} }
 
 // Preamble: sorts and helper functions shared by every query.
-func preamble(ieee bool) string {
+func preamble(ieee, real bool) string {
 	var b strings.Builder
 	b.WriteString("(set-logic ALL)\n")
-	if ieee {
+	if real {
+		b.WriteString("(define-sort F64 () Real)\n(define-sort F32 () Real)\n")
+	} else if ieee {
 		b.WriteString("(define-sort F64 () (_ FloatingPoint 11 53))\n(define-sort F32 () (_ FloatingPoint 8 24))\n")
 	} else {
 		b.WriteString("(declare-sort F64 0)\n(declare-sort F32 0)\n")
@@ -553,6 +555,28 @@ func firstLine(s string) string {
 		s = s[:200]
 	}
 	return s
+}
+
+// realLit: the exact rational value of a finite float constant.
+func realLit(v float64, s Sort) Term {
+	r := new(big.Rat)
+	if r.SetFloat64(v) == nil {
+		return Term{"0.0", s} // not reached: NaN/Inf constants are not literals
+	}
+	neg := r.Sign() < 0
+	if neg {
+		r.Neg(r)
+	}
+	var t string
+	if r.IsInt() {
+		t = r.Num().String() + ".0"
+	} else {
+		t = "(/ " + r.Num().String() + ".0 " + r.Denom().String() + ".0)"
+	}
+	if neg {
+		t = "(- " + t + ")"
+	}
+	return Term{t, s}
 }
 
 func f64Lit(v float64, ieee bool) (Term, string) {
